@@ -20,7 +20,11 @@ type Sorts struct {
 }
 
 func newSorts(sig *Sig) *Sorts {
-	return &Sorts{sig: sig, named: map[string]string{}, opaque: map[string]bool{}, zeroDone: map[string]bool{}, codecs: map[string]bool{}, strLits: map[string]string{}}
+	so := &Sorts{sig: sig, named: map[string]string{}, opaque: map[string]bool{}, zeroDone: map[string]bool{}, codecs: map[string]bool{}, strLits: map[string]string{}}
+	for v := range namedStrLits {
+		so.strLit(v)
+	}
+	return so
 }
 
 var fixedSorts = map[string]string{
@@ -84,6 +88,9 @@ func shortTypeName(full string) string {
 }
 
 func (so *Sorts) declareOpaque(name string) string {
+	if so.sig.Sorts[name] && !so.opaque[name] {
+		return name // declared by the prelude
+	}
 	if !so.opaque[name] {
 		so.opaque[name] = true
 		so.sig.Sorts[name] = true
@@ -345,6 +352,9 @@ func (so *Sorts) strLit(v string) string {
 		return c
 	}
 	c := fmt.Sprintf("strlit_%d", len(so.strLits))
+	if n, ok := namedStrLits[v]; ok {
+		c = n
+	}
 	so.strLits[v] = c
 	so.strOrder = append(so.strOrder, v)
 	so.sig.Funs[c] = &FunSig{Ret: "Str"}
@@ -376,4 +386,11 @@ func truncate(s string, n int) string {
 		return s[:n] + "..."
 	}
 	return s
+}
+
+// string constants that the theories refer to by name
+var namedStrLits = map[string]string{
+	"service_deposit_account": "strlit_depositAcc",
+	"service_request_account": "strlit_requestAcc",
+	"fee_collector":           "strlit_feeCollector",
 }
